@@ -425,7 +425,21 @@ def check_unpack(ctx, ci, bits='derive'):
             else:
                 ctx.violation(rule, fi, '%s: store %s' % (label, canon(v)), 'expected the member\'s own bits of the shared word at bit 0, (I & self.mask) >> self.shift; this is %s' % (got.text() if hasattr(got, 'text') else 'not a value made of bits of the shared word'), st_[-1].lineno, clause='c')
         except Undecided as ex:
-            ctx.undecided(rule, fi, '%s: store %s' % (label, canon(v)), str(ex), st_[-1].lineno, clause='c')
+            # Round 8: the slice plus / minus another quantity (a sign extension, a bias): the member's
+            # value is no longer the unsigned number its bits spell
+            shifted = None
+            if isinstance(v, ast.BinOp) and isinstance(v.op, (ast.Add, ast.Sub)):
+                for side, other in ((v.left, v.right), (v.right, v.left)):
+                    try:
+                        g_ = bits_eval(bits).ev(side) if bits is not None else None
+                    except Undecided:
+                        g_ = None
+                    if isinstance(g_, bp.Bits) and g_.key() == bp.field_slice().key() and not (isinstance(other, ast.Constant) and other.value == 0):
+                        shifted = other
+            if shifted is not None:
+                ctx.violation(rule, fi, '%s: store %s' % (label, canon(v)[:120]), 'the member\'s slice is extracted correctly and then %s is added to / subtracted from it: the value is not the unsigned number 0 .. 2^width - 1 that the bits of the member spell' % canon(shifted)[:50], st_[-1].lineno, clause='c', witness=True)
+            else:
+                ctx.undecided(rule, fi, '%s: store %s' % (label, canon(v)), str(ex), st_[-1].lineno, clause='c')
         reads = [e for e in p.effects if e.kind == 'call' and isinstance(e.call.func, ast.Attribute) and e.call.func.attr == 'unpack' and canon(e.call.func.value) == 'self.I']
         r = p.ret()
         if 'self.iam_first' in gt:
